@@ -177,7 +177,10 @@ where
 
     // Prepare the default SolOut (wrapping user callback if provided)
     let n_states = y0.len();
-    let mut default_solout = DefaultSolOut::new(f, options.t_eval.clone(), options.dense_output, options.first_step, x0, n_states);
+    // A first step longer than the whole interval is cut to the interval by the solvers, so
+    // there is no point `x0 + first_step` for the output handler to enforce.
+    let first_output = options.first_step.filter(|h0| h0.abs() <= (xend - x0).abs());
+    let mut default_solout = DefaultSolOut::new(f, options.t_eval.clone(), options.dense_output, first_output, x0, n_states);
 
     // Dispatch by method
     let result = match options.method {
